@@ -17,7 +17,13 @@
 EXTENDS JMES, Json, Toks, DocsCall, SequencesExt, CallTypes
 CONSTANTS Emit, Prop
 
-Vals == PoolCall
+\* the call pool plus literals beyond the sizes at which an implementation may
+\* switch representation (40 elements / members / characters)
+U2(i) == <<117, 48 + (i \div 10), 48 + (i % 10)>>          \* "u00" .. "u39"
+BigArr == Arr([i \in 1..40 |-> Str(U2(i - 1))])
+BigObj == Obj([i \in 1..40 |-> Mem(U2(i - 1), JInt(i))])
+BigStr == Str([i \in 1..40 |-> 97 + (i % 26)])
+Vals == PoolCall \o <<BigArr, BigObj, BigStr, Str(U2(7)), Str(U2(39))>>
 NV == Len(Vals)
 Typed(f, i) == SelectSeq(Vals, LAMBDA v : v.t \in ArgTypes(f, i))
 CapTo(s, k) == IF Len(s) <= k THEN s ELSE SubSeq(s, 1, k)
@@ -36,7 +42,7 @@ Spec == Init /\ [][Next]_<<bucket, idx>>
 \* alternatives (token sequences) for position i when @ stands at position p
 Alts(f, n, i, lv) ==
   IF i \in Sigs[f].refs THEN RefAlts
-  ELSE LET tv == CapTo(Typed(f, i), IF n <= 2 THEN 23 ELSE 4)
+  ELSE LET tv == CapTo(Typed(f, i), IF n <= 2 THEN 40 ELSE 4)
        IN [k \in 1..Len(tv) |-> IF lv THEN <<VarT(<<36,108>>)>> ELSE <<Json(EncJSON(tv[k]))>>]
 RECURSIVE Tuples(_, _, _, _)
 \* all argument lists (sequences of token sequences) for positions i..n
